@@ -6,6 +6,7 @@ import (
 	"errors"
 	"fmt"
 
+	"github.com/btcsuite/btcd/chaincfg/chainhash"
 	"github.com/btcsuite/btcd/txscript"
 	"github.com/btcsuite/btcd/wire"
 )
@@ -89,4 +90,17 @@ func (c *SimChain) verifySwapSpend(tx *ChainTx, so *SwapOutput) (string, error) 
 		return "", err
 	}
 	return classifyWitness(len(m.TxIn[idx].Witness)), nil
+}
+
+func plainBtcSpend(txid string, vout uint32) string {
+	h, err := chainhash.NewHashFromStr(txid)
+	if err != nil {
+		return ""
+	}
+	m := wire.NewMsgTx(2)
+	m.AddTxIn(wire.NewTxIn(wire.NewOutPoint(h, vout), nil, [][]byte{{0x30}, {0x02}}))
+	m.AddTxOut(wire.NewTxOut(1000, []byte{0x00, 0x14, 1, 2, 3, 4, 5, 6, 7, 8, 9, 10, 11, 12, 13, 14, 15, 16, 17, 18, 19, 20}))
+	var buf bytes.Buffer
+	m.Serialize(&buf)
+	return hex.EncodeToString(buf.Bytes())
 }
